@@ -43,11 +43,62 @@ theorem eq_of_sorted_of_mem_iff {l1 l2 : List NodeId} {pos : NodeId → Nat} (hi
   have hba' : pos b ≤ pos a := by simpa using hba
   exact hinj a ha b ((hmem b).mpr hb) (by omega)
 
+/-! ## insertion sort by position (structural recursion: evaluates in the kernel) -/
+
+def insertBy (pos : NodeId → Nat) (a : NodeId × Op) : List (NodeId × Op) → List (NodeId × Op)
+  | [] => [a]
+  | b :: t => if pos a.1 ≤ pos b.1 then a :: b :: t else b :: insertBy pos a t
+
+def isort (pos : NodeId → Nat) : List (NodeId × Op) → List (NodeId × Op)
+  | [] => []
+  | a :: t => insertBy pos a (isort pos t)
+
+theorem insertBy_perm (pos : NodeId → Nat) (a : NodeId × Op) (l : List (NodeId × Op)) : (insertBy pos a l).Perm (a :: l) := by
+  induction l with
+  | nil => exact List.Perm.refl _
+  | cons b t ih =>
+    unfold insertBy
+    by_cases h : pos a.1 ≤ pos b.1
+    · rw [if_pos h]
+    · rw [if_neg h]
+      exact (List.Perm.cons b ih).trans (List.Perm.swap a b t)
+
+theorem isort_perm (pos : NodeId → Nat) (l : List (NodeId × Op)) : (isort pos l).Perm l := by
+  induction l with
+  | nil => exact List.Perm.refl _
+  | cons a t ih => exact (insertBy_perm pos a _).trans (List.Perm.cons a ih)
+
+theorem insertBy_pairwise (pos : NodeId → Nat) (a : NodeId × Op) {l : List (NodeId × Op)}
+    (h : l.Pairwise (fun x y => pos x.1 ≤ pos y.1)) : (insertBy pos a l).Pairwise (fun x y => pos x.1 ≤ pos y.1) := by
+  induction l with
+  | nil => simp [insertBy]
+  | cons b t ih =>
+    rw [List.pairwise_cons] at h
+    unfold insertBy
+    by_cases hab : pos a.1 ≤ pos b.1
+    · rw [if_pos hab, List.pairwise_cons]
+      refine ⟨?_, List.pairwise_cons.mpr h⟩
+      intro y hy
+      rcases List.mem_cons.mp hy with rfl | hy
+      · exact hab
+      · have := h.1 y hy; omega
+    · rw [if_neg hab, List.pairwise_cons]
+      refine ⟨?_, ih h.2⟩
+      intro y hy
+      rcases List.mem_cons.mp ((insertBy_perm pos a t).subset hy) with rfl | hy
+      · omega
+      · exact h.1 y hy
+
+theorem isort_pairwise (pos : NodeId → Nat) (l : List (NodeId × Op)) : (isort pos l).Pairwise (fun x y => pos x.1 ≤ pos y.1) := by
+  induction l with
+  | nil => exact List.Pairwise.nil
+  | cons a t ih => exact insertBy_pairwise pos a ih
+
 /-! ## the schedule of a topological order -/
 
 /-- the operation nodes sorted by `pos`, each with its operation as wired -/
 def schedOf (c : Dag) (P : Paths) (pos : NodeId → Nat) : List (NodeId × Op) :=
-  ((c.nodes.filter isOpNode).mergeSort (fun a b => decide (pos a.1 ≤ pos b.1))).map (fun p => (p.1, wiredOp P p.1 p.2))
+  (isort pos (c.nodes.filter isOpNode)).map (fun p => (p.1, wiredOp P p.1 p.2))
 
 theorem mem_opNodes {c : Dag} {q : NodeId × Op} : q ∈ c.nodes.filter isOpNode ↔ (∃ i, q.1 = NodeId.op i) ∧ q ∈ c.nodes := by
   rw [List.mem_filter]
@@ -60,16 +111,15 @@ theorem mem_schedOf {c : Dag} {P : Paths} {pos : NodeId → Nat} (p : NodeId × 
   rw [List.mem_map]
   constructor
   · rintro ⟨q, hq, rfl⟩
-    have hq' := (List.mergeSort_perm _ _).subset hq
+    have hq' := (isort_perm _ _).subset hq
     obtain ⟨hi, hm⟩ := mem_opNodes.mp hq'
     exact ⟨hi, q.2, hm, rfl⟩
   · rintro ⟨hi, o, hm, ho⟩
-    refine ⟨(p.1, o), (List.mergeSort_perm _ _).symm.subset (mem_opNodes.mpr ⟨hi, hm⟩), ?_⟩
+    refine ⟨(p.1, o), (isort_perm _ _).symm.subset (mem_opNodes.mpr ⟨hi, hm⟩), ?_⟩
     exact Prod.ext rfl ho.symm
 
 theorem schedOf_fst (c : Dag) (P : Paths) (pos : NodeId → Nat) :
-    (schedOf c P pos).map (·.1) =
-      ((c.nodes.filter isOpNode).mergeSort (fun a b => decide (pos a.1 ≤ pos b.1))).map (·.1) := by
+    (schedOf c P pos).map (·.1) = (isort pos (c.nodes.filter isOpNode)).map (·.1) := by
   unfold schedOf
   rw [List.map_map]
   rfl
@@ -77,15 +127,12 @@ theorem schedOf_fst (c : Dag) (P : Paths) (pos : NodeId → Nat) :
 theorem schedOf_sorted (c : Dag) (P : Paths) (pos : NodeId → Nat) :
     ((schedOf c P pos).map (·.1)).Pairwise (fun a b => pos a ≤ pos b) := by
   rw [schedOf_fst, List.pairwise_map]
-  have := List.pairwise_mergeSort (le := fun a b : NodeId × Op => decide (pos a.1 ≤ pos b.1))
-    (by intro a b c h1 h2; simp only [decide_eq_true_eq] at h1 h2 ⊢; omega)
-    (by intro a b; simp only [Bool.or_eq_true, decide_eq_true_eq]; omega) (c.nodes.filter isOpNode)
-  exact this.imp (by intro a b h; simpa using h)
+  exact isort_pairwise pos _
 
 theorem schedOf_nodup {c : Dag} {P : Paths} (h : Inv c P) (pos : NodeId → Nat) : ((schedOf c P pos).map (·.1)).Nodup := by
   rw [schedOf_fst]
-  have hp : (((c.nodes.filter isOpNode).mergeSort (fun a b => decide (pos a.1 ≤ pos b.1))).map (·.1)).Perm
-      ((c.nodes.filter isOpNode).map (·.1)) := (List.mergeSort_perm _ _).map _
+  have hp : ((isort pos (c.nodes.filter isOpNode)).map (·.1)).Perm
+      ((c.nodes.filter isOpNode).map (·.1)) := (isort_perm _ _).map _
   rw [hp.nodup_iff]
   exact List.Nodup.sublist (List.Sublist.map _ List.filter_sublist) h.ids_nodup
 
